@@ -222,6 +222,10 @@ def run(rep, tier):
             else:
                 rep.ob(rn, key, d["kind"] in ("xadd", "tail_call") and not problems, "opcode %#04x (%s) has no assembler spelling" % (v, d["kind"]),
                        expected="only atomic add and tail call are inexpressible", found=d["kind"])
+    # the round trip is about whole programs: the disassembler has to produce one line per instruction (two slots for a
+    # wide load) with that instruction's own fields - C15's rules are obligations here too
+    import props.c15 as c15
+    c15.run(rep, tier)
     rp = rep.rule("R16.p", "consecutive rendered instructions parse as separate instructions (operand-less line followed by a mnemonic starting like a register)", floor=1)
     okp, foundp = asmmodel.register_vs_mnemonic(F, tab)
     rep.ob(rp, "register-vs-mnemonic", okp, "`exit` followed by `rsh64 ...` in the disassembler's output", expected="the register parser backtracks", found=foundp)
